@@ -41,6 +41,25 @@ Proof.
 Qed.
 Print Assumptions C20_set_replays.
 
+(* the principal writer of every other type (and INCR): a successful command emits exactly one record,
+   carrying the arguments of the command (for INCR: the new value, keeping the deadline) - whatever
+   the state before, including a key re-created in place or loaded from storage *)
+Theorem C20_writers_emit_exactly_their_record : forall k now d,
+  (forall left vs n d', api_push left k vs now d = Ok n d' -> new_pops d d' = [if left then PLPush k vs else PRPush k vs]) /\
+  (forall f v n d', api_hset k f v now d = Ok n d' -> new_pops d d' = [PHSet k f v]) /\
+  (forall ms n d', api_sadd k ms now d = Ok n d' -> new_pops d d' = [PSAdd k ms]) /\
+  (forall m s n d', api_zadd_gen 0 k m s now d = Ok n d' -> new_pops d d' = [PZAdd k m s]) /\
+  (forall delta decr n d', api_incr_gen k delta decr false now d = Ok (Some n) d' -> new_pops d d' = [PSet k (format_int n) true 0]).
+Proof.
+  intros k now d. repeat split; intros.
+  - eapply push_record; eassumption.
+  - eapply hset_record; eassumption.
+  - eapply sadd_record; eassumption.
+  - eapply zadd_record; eassumption.
+  - eapply incr_record; eassumption.
+Qed.
+Print Assumptions C20_writers_emit_exactly_their_record.
+
 (* whole histories replayed by the kernel: run the commands on a primary, collect its records,
    apply them in order to an empty replica, compare the logical states *)
 Definition run_cmds (cmds : list (bytes * list bytes)) : server :=
